@@ -342,6 +342,17 @@ def run_unit(unit):
     c = res["counters"]
     k = unit["kind"]
 
+    # state an earlier *offline* run leaves behind in the same process (caches, memoised choices made on the
+    # first context seen) must not weaken the online runs that follow: every unit starts with two offline runs
+    # that evaluate an input and a string
+    if k != "control":
+        for t0, i0 in (("?E", ["1+1"]), ("`2`E ?", ["[1,2]"])):
+            try:
+                run_online(t0, i0, "", online=False, timeout=5)
+                c["offline_runs_before_online"] = c.get("offline_runs_before_online", 0) + 1
+            except Exception:  # noqa
+                pass
+
     def observe(got):
         c["online_runs"] = c.get("online_runs", 0) + 1
         c["audit_events"] = c.get("audit_events", 0) + len(got["events"])
